@@ -33,8 +33,11 @@ pub struct Rat {
 
 #[inline]
 fn gcd(mut a: i128, mut b: i128) -> i128 {
-    a = a.abs();
-    b = b.abs();
+    a = a.wrapping_abs();
+    b = b.wrapping_abs();
+    if a < 0 || b < 0 {
+        return 1;
+    }
     while b != 0 {
         let t = a % b;
         a = b;
@@ -57,8 +60,17 @@ impl Rat {
     #[inline]
     fn norm(mut n: i128, mut d: i128) -> Rat {
         if d < 0 {
-            n = -n;
-            d = -d;
+            // (i128::MIN cannot be negated: an overflow like any other, the case is discarded)
+            match (n.checked_neg(), d.checked_neg()) {
+                (Some(a), Some(b)) => {
+                    n = a;
+                    d = b;
+                }
+                _ => return flag(),
+            }
+        }
+        if n == i128::MIN {
+            return flag();
         }
         if d == 1 {
             return Rat { n, d };
@@ -87,7 +99,10 @@ impl Rat {
         self.n.signum() as i32
     }
     pub fn rabs(&self) -> Rat {
-        Rat { n: self.n.abs(), d: self.d }
+        match self.n.checked_abs() {
+            Some(n) => Rat { n, d: self.d },
+            None => flag(),
+        }
     }
     /// exact conversion of a (dyadic) f64; None when not representable in range
     pub fn from_f64(x: f64) -> Option<Rat> {
@@ -203,7 +218,10 @@ impl Neg for Rat {
     type Output = Rat;
     #[inline]
     fn neg(self) -> Rat {
-        Rat { n: -self.n, d: self.d }
+        match self.n.checked_neg() {
+            Some(n) => Rat { n, d: self.d },
+            None => flag(),
+        }
     }
 }
 impl Sub for Rat {
